@@ -146,7 +146,7 @@ func checkC07(run *Run, res *Result) {
 			vbmap = nil
 			_ = json.Unmarshal(e.Raw, &vbmap)
 			mapsByRev[e.I] = vbmap
-			if e.I > 1 {
+			if e.I != 1_000_001 {
 				mapBumps++
 			}
 		case journal.KHandler:
